@@ -5,7 +5,7 @@ import c11
 
 def run(ctx, prefixes):
     q = ctx.tier == "quick"
-    ctx.mc("H2Relay.tla", "MC_H2Relay_Q.cfg" if q else "MC_H2Relay_FC.cfg", timeout=3000)
+    ctx.mc("H2Relay.tla", "MC_H2Relay_Q.cfg" if q else "MC_H2Relay_FC.cfg", timeout=7200)
     ok, _, _, _ = ctx.mc("H2Relay.tla", "MC_H2Relay_BugZeroCostHeld.cfg", expect_ok=False)
     if ok:
         raise vlib.Infra("H2Relay mutant BugZeroCostHeld not detected by the model")
